@@ -246,7 +246,42 @@ def run_extreme(case, acc, order):
                    else 'overlapping-groups', {'groups': groups}, exp, got)
 
 
+def run_long_narrow(case, acc, order):
+    """Vectors with more entries than their (narrow) id dtype can count: spike indices are positions,
+    never values of the id dtype."""
+    from phylib.io.array import _spikes_per_cluster, _spikes_in_clusters
+    dt, n = case['dtype'], case['n']
+    acc.state()
+    v = (np.arange(n) % 3 * 2).astype(dt)                   # ids 0, 2, 4
+    bad = None
+    try:
+        spc = _spikes_per_cluster(v)
+        for c in (0, 2, 4):
+            exp = np.arange(c // 2, n, 3)
+            got = np.asarray(spc[c])
+            if got.shape != exp.shape or not np.array_equal(got.astype(np.int64), exp):
+                k = int(np.argmax(got.astype(np.int64)[:len(exp)] != exp[:len(got)])) if len(got) else 0
+                bad = ('value', 'group %d: entry %d is %s, expected %d' % (
+                    c, k, got[k] if len(got) > k else None, exp[k]))
+                break
+        if bad is None:
+            sel = np.asarray(_spikes_in_clusters(v, [4, 0]))
+            exp = np.sort(np.concatenate([np.arange(0, n, 3), np.arange(2, n, 3)]))
+            if sel.shape != exp.shape or not np.array_equal(sel.astype(np.int64), exp):
+                bad = ('value', 'selection of clusters [4, 0] differs')
+    except Exception as e:
+        bad = (type(e).__name__, repr(e)[:200])
+    acc.step(True, 'spc:long-narrow')
+    if bad:
+        sig = '%s/spikes_per_cluster/%s/more-spikes-than-the-id-dtype-counts/%s' % (
+            PROP, 'unsigned' if dt.startswith('u') else 'signed', bad[0])
+        acc.violation(sig, core.make_record(PROP, 'spikes_per_cluster', sig, case=case,
+                                            expected='positions 0..n-1 grouped by id', observed=bad[1]), order)
+
+
 def run_case(case, acc, order):
+    if case.get('long_narrow'):
+        return run_long_narrow(case, acc, order)
     if case.get('extreme'):
         return run_extreme(case, acc, order)
     if 'm' in case:
@@ -297,6 +332,9 @@ def explore(ctx):
     ctx.run_cases(run_case, cases, chunk=1, sweep='many-ids')
     cases = [{'extreme': True, 'dtype': dt} for dt in ('uint8', 'uint16', 'int16', 'int32', 'uint32', 'int64')]
     ctx.run_cases(run_case, cases, chunk=1, sweep='extreme-values')
+    cases = [{'long_narrow': True, 'dtype': dt, 'n': n}
+             for dt, n in (('uint8', 1000), ('int16', 40000), ('uint16', 70000), ('int32', 70000))]
+    ctx.run_cases(run_case, cases, chunk=1, sweep='long-narrow-dtype')
     try:
         from . import c07_model
     except ImportError:
